@@ -165,8 +165,14 @@ def bounded(uni, tier, seed):
             samples.append({"spec": name, "csv_names": len(set(re.findall(r'"([^"]*\.csv)"', text))),
                             "sections": text.count("Metrics.beginCollect(")})
         if probs:
-            cause = " cause=one-component-name-in-two-configurations" if (name, txt) in second else (
-                " cause=format-rank-order-differs-from-the-tensors-rank-order" if (name, txt) in disc else "")
+            # the recorded findings are matched by the failing case, not by the input alone: on a repeated configuration
+            # ONLY eager traces are consumed unproduced; under a discordant format ONLY a filterTrace input <rank>-iter is
+            # missing. Anything else that goes wrong on these inputs is reported
+            cause = ""
+            if (name, txt) in second and all(re.search(r"-eager_\w+\.csv consumed but never produced", q) for q in probs):
+                cause = " cause=one-component-name-in-two-configurations"
+            elif (name, txt) in disc and all(re.search(r"filterTrace reads \S+-iter\.csv which is never produced", q) for q in probs):
+                cause = " cause=format-rank-order-differs-from-the-tensors-rank-order"
             fails.append({"name": "bounded/trace-cross-reference", "detail": "%s: %s%s" % (name, probs[0], cause),
                           "witness": {"spec": name, "problems": probs[:5], "yaml": txt[:1500]}})
     return {"evaluations": ev, "distinct_nontrivial": len(distinct), "failures": fails, "samples": samples,
